@@ -61,6 +61,18 @@ def search(ctx, n):
         rel2 = corecheck.make_rel(np.random.default_rng(seed), N=6, order=2, fluid=True, extra={"Tdown4": T})
         checks.append(("trace T (Tdown4 supplied) = g^{mu nu} T_mu_nu", "Ttrace", rel2["Ttrace"], -rho + 3 * p))
         checks.append(("E from supplied T", "rho_n", rel2["rho_n"], rhoh * W ** 2 - p))
+        # the alternatives taken when NOTHING else is cached yet: every key once more, each on a fresh instance
+        # (the list above requests Tdown4 first, so e.g. Ttrace would otherwise only ever see a cached Tdown4)
+        firsts = [("trace T = -rho + 3 p", "Ttrace", -rho + 3 * p), ("E = rho h W^2 - p", "rho_n", rhoh * W ** 2 - p),
+                  ("P = S/3", "press_n", (rhoh * W ** 2 * np.einsum("i...,i...->...", v, vd) + 3 * p) / 3),
+                  ("S_i = rho h W^2 v_i", "fluxdown3_n", rhoh * W ** 2 * vd), ("S^i = rho h W^2 v^i", "fluxup3_n", rhoh * W ** 2 * v),
+                  ("S_ij = rho h W^2 v_i v_j + p gamma_ij", "Stressdown3_n",
+                   rhoh * W ** 2 * np.einsum("i...,j...->ij...", vd, vd) + p * g3),
+                  ("u_mu", "udown4", ud), ("S_mu = D h u_mu", "conserved_Sdown4", rho0 * W * np.sqrt(rel["gammadet"]) * (1 + eps + p / rho0) * ud)]
+        ctx.rng.shuffle(firsts)
+        for what, key, exp in firsts[:ctx.budget(3, 8)]:
+            relf = corecheck.make_rel(np.random.default_rng(seed), N=6, order=2, fluid=True)
+            checks.append((what + " (requested first on a fresh instance)", key, relf[key], exp))
         for what, key, got, exp in checks:
             ctx.count("oracle_evaluations")
             scale = max(1.0, float(np.max(np.abs(exp))))
